@@ -12,3 +12,11 @@ package commitment
 //@   results c, err
 //@   ensures (err == nil) == rvOK(rv)
 //@   ensures err == nil ==> c == commitOfReveal(rv) && c != ""
+
+//@ spec commitOK(k *jws.JWK, code uint) bool
+//@ spec commitOf(k *jws.JWK, code uint) string
+//@ func GetCommitment
+//@   trusted
+//@   results c, err
+//@   ensures (err == nil) == commitOK(jwk, multihashCode)
+//@   ensures err == nil ==> c == commitOf(jwk, multihashCode)
